@@ -496,6 +496,43 @@ def c14_stage(out, tier, seed):
             e.close()
         return r
 
+    # long sessions with a large table: the 256th, 257th ... search of a process is timed like any other
+    def long_session(hash_mb):
+        e = Engine(binary)
+        r = {"verdict": "held"}
+        try:
+            e.send(f"setoption name Hash value {hash_mb}")
+            if not settle(e, 120.0):
+                return {"verdict": "inconclusive", "what": "engine not ready"}
+            pos = roomy_positions[0]
+            e.send(position_cmd(pos["root"], pos["moves"]))
+            for i in range(260):
+                timed = i >= 250
+                cpu0, t0, n = e.cpu_ns(), now(), e.n_out()
+                e.send("go wtime 250 btime 250" if timed else "go depth 1")
+                got = e.wait_line(lambda x: x.startswith("bestmove"), n, 60.0)
+                cpu1 = e.cpu_ns()
+                if got is None:
+                    v, sig, text = crash_or_hang(e, f"search {i + 1} of a session with Hash {hash_mb}")
+                    return {"verdict": v, "signature": f"c14.{sig}", "what": text}
+                if timed and cpu0 is not None and cpu1 is not None and (cpu1 - cpu0) / 1e6 > 250:
+                    return {"verdict": "violated", "signature": "c14.flagged.long-session",
+                            "what": f"search number {i + 1} of one process (Hash {hash_mb}) consumed {(cpu1 - cpu0) / 1e6:.0f} ms of CPU with 250 ms on the clock"}
+                time.sleep(0.002)
+        finally:
+            e.close()
+        return r
+
+    roomy_positions = [p for p in positions if int(p["fen"].split()[4]) < 40 and sum(c.isalpha() for c in p["fen"].split()[0]) >= 12] or positions
+    for hash_mb in ([256, 1024] if thorough else [512]):
+        r = long_session(hash_mb)
+        out.evaluations += 1
+        out.features["timed_long_sessions_past_256_searches"] = out.features.get("timed_long_sessions_past_256_searches", 0) + 1
+        if r["verdict"] == "violated":
+            out.add_violation("timed-release", r["signature"], r["what"], {"kind": "py", "check": "c14-long", "hash": hash_mb})
+        elif r["verdict"] == "inconclusive":
+            out.add_inconclusive({"stage": "timed-release", "what": r["what"]})
+
     mt_cases = []
     # middlegame-like positions far from the fifty-move boundary, so that the search cannot run out of depth
     roomy = [p for p in positions if int(p["fen"].split()[4]) < 40 and sum(c.isalpha() for c in p["fen"].split()[0]) >= 12] or positions
@@ -787,7 +824,8 @@ def strip_info(line):
 
 
 def transcript(e, pos, depth):
-    e.send(position_cmd(pos["root"], pos["moves"]))
+    if pos is not None:
+        e.send(position_cmd(pos["root"], pos["moves"]))
     n = e.n_out()
     e.send(f"go depth {depth}")
     got = e.wait_line(lambda x: x.startswith("bestmove"), n, 120.0)
@@ -809,7 +847,9 @@ def c12_stage(out, tier, seed):
 
     def work(i):
         r = random.Random(seed * 1000 + i)
-        target = r.choice(positions)
+        # every third comparison searches whatever position the engine holds (a freshly started engine and
+        # one that just got ucinewgame both hold the start position): state outside the tables counts too
+        target = None if i % 3 == 2 else r.choice(positions)
         depth = r.choice([4, 5, 6, 7])
         hash_mb = r.choice([1, 2, 16])
         # fresh engine
@@ -843,6 +883,8 @@ def c12_stage(out, tier, seed):
         with lock:
             out.evaluations += 1
             out.features["binary_ucinewgame_comparisons"] = out.features.get("binary_ucinewgame_comparisons", 0) + 1
+            if target is None:
+                out.features["binary_ucinewgame_then_go_without_position"] = out.features.get("binary_ucinewgame_then_go_without_position", 0) + 1
             if delayed:
                 out.features["binary_ucinewgame_right_after_bestmove_with_delay"] = out.features.get("binary_ucinewgame_right_after_bestmove_with_delay", 0) + 1
             if ta is None or tb is None:
@@ -853,7 +895,7 @@ def c12_stage(out, tier, seed):
             elif ta != tb:
                 diff = next((x, y) for x, y in zip(ta + [""], tb + [""]) if x != y)
                 out.add_violation("ucinewgame-binary", "c12.binary.ucinewgame-not-fresh",
-                                  f"after {len(hist)} searches and ucinewgame, 'go depth {depth}' on {target['fen']} differs from a freshly started engine: fresh '{diff[0]}' vs '{diff[1]}'",
+                                  f"after {len(hist)} searches and ucinewgame, 'go depth {depth}' on {target['fen'] if target else 'the position held (no position command sent)'} differs from a freshly started engine: fresh '{diff[0]}' vs '{diff[1]}'",
                                   {"kind": "py", "check": "c12", "target": target, "depth": depth, "hash": hash_mb, "history": hist})
 
     with ThreadPoolExecutor(max_workers=10) as ex:
